@@ -26,8 +26,8 @@ CROSSHAIR = ["xh/g_function_contract.py"]
 ASSUMPTIONS = ["A1 z3 sound", "A2 numpy object-array semantics",
                "fidelity returns a float: 'equals' means |value - oracle| <= 1e-9 (2**(-k/2) squared is 0.5000000000000001 for k=1)",
                "destabilizer halves of fidelity's inputs are left unconstrained (the function never reads them)"]
-BOUNDS = {"quick": {"canonical_form": "n<=2 (+budgeted n=3)", "gauge": "n<=2", "fidelity": "two symbolic tableaux n<=1 (+budgeted n=2); fidelity(T,T)=1 / sign-flip=0 for n<=2 (+budgeted n=3, n=4); row_sum n<=4"},
-          "thorough": {"canonical_form": "n<=3", "gauge": "n<=3", "fidelity": "two symbolic tableaux n<=2; fidelity(T,T) n<=3 complete, n=4 under a 1 h budget; row_sum n<=6"}}
+BOUNDS = {"quick": {"canonical_form": "n<=2 (+budgeted n=3)", "gauge": "n<=2", "fidelity": "two symbolic tableaux n<=1 (+budgeted n=2); fidelity(T,T)=1 / sign-flip=0 for n<=2 (+budgeted n=3, n=4); |0..0> against a symbolic product state n=5 (+budgeted n=6); row_sum n<=5"},
+          "thorough": {"canonical_form": "n<=3", "gauge": "n<=3", "fidelity": "two symbolic tableaux n<=2; fidelity(T,T) n<=3 complete, n=4 under a 1 h budget; product-state fidelity n=5 complete, n=6, 7 under a 30 min budget each; row_sum n<=6 and 8"}}
 OUTSIDE = "n>=4 (n>=3 for whole-function fidelity); the density-matrix branch of the metric (C17)"
 
 
@@ -242,6 +242,54 @@ class FidelitySelfPinned(FidelitySelf):
         return a
 
 
+class FidelityProduct(Harness):
+    """fidelity(|0...0>, product state) for a SYMBOLIC single-qubit-product stabilizer state (each qubit stabilized by
+    +-X, +-Y or +-Z) at sizes where general tableaux are out of reach: exactly 0 if some qubit is in |1>, otherwise
+    2^-(number of qubits not in a Z eigenstate) -- to 1e-12, so that no value is rounded"""
+
+    weight = 60
+
+    def input_space(self):
+        return 3 * self.n
+
+    def declare(self, S):
+        n = self.n
+        spec = {"n": n, "x": [S.bit(f"px{i}") for i in range(n)], "z": [S.bit(f"pz{i}") for i in range(n)],
+                "r": [S.bit(f"pr{i}") for i in range(n)]}
+        for i in range(n):
+            S.assume(b_or(O.eq_bits(spec["x"][i], 1), O.eq_bits(spec["z"][i], 1)))
+        return spec
+
+    def body(self, S, spec):
+        import graphiq.backends.stabilizer.functions.metric as metric
+        from graphiq.backends.stabilizer.clifford_tableau import CliffordTableau
+        from graphiq.backends.stabilizer.tableau import StabilizerTableau
+
+        n = self.n
+        if S.symbolic:
+            from symnp.arr import sym_zeros
+            table, phase = sym_zeros((n, 2 * n)), sym_zeros(n)
+        else:
+            table, phase = np.zeros((n, 2 * n), dtype=int), np.zeros(n, dtype=int)
+        for i in range(n):
+            table[i, i] = spec["x"][i]
+            table[i, n + i] = spec["z"][i]
+            phase[i] = spec["r"][i]
+        B = CliffordTableau(StabilizerTableau(table, phase))
+        A = CliffordTableau(n)
+        for order, (t1, t2) in (("0,B", (A, B)), ("B,0", (B.copy(), CliffordTableau(n)))):
+            f = float(metric.fidelity(t1, t2))
+            in_one = b_or(*[b_and(O.eq_bits(spec["x"][i], 0), O.eq_bits(spec["r"][i], 1)) for i in range(n)])
+            k = 0
+            for i in range(n):
+                k = k + spec["x"][i]
+            if abs(f) <= 1e-15:
+                S.prove(f"zero-iff-some-qubit-in-ket1[{order}]", in_one)
+            else:
+                S.prove(f"nonzero-implies-no-qubit-in-ket1[{order}]", b_not(in_one))
+                S.prove(f"value-is-exactly-2^-k[{order}]", b_or(*[b_and(k == j, abs(f - 2.0 ** (-j)) <= 1e-12) for j in range(n + 1)]))
+
+
 class RowSum(Harness):
     """linalg.row_sum / stabilizer.tab_row_sum sign rule vs the oracle product (Hermitian commuting rows)"""
 
@@ -375,11 +423,16 @@ def plan(tier):
     jobs.append((Fidelity(n=1, symmetry=True), {}))
     jobs.append((InfidelityMetric(n=1), {}))
     jobs.append((InfidelityMixture(), {}))
-    for n in ([2, 3, 4] if q else [2, 3, 4, 5, 6]):
+    for n in ([2, 3, 4, 5] if q else [2, 3, 4, 5, 6, 8]):
         jobs.append((RowSum(n=n, commuting=True), {}))
         jobs.append((RowSum(n=n, commuting=False), {}))
     from props.c11 import F16_LABELS
     jobs.append((FidelitySelfPinned(n=5, labels=F16_LABELS), {}))
+    for n in ([5, 6] if q else [5, 6, 7]):
+        h = FidelityProduct(n=n)
+        h.parallel = True
+        h.partial_ok = n >= 6
+        jobs.append((h, {"time_budget": 40 if q else 1800, "chunk_paths": 8, "chunk_s": 8.0}))
     jobs.append((FidelitySelf(n=1), {}))
     jobs.append((FidelitySelf(n=2), {}))
     if q:
